@@ -65,7 +65,7 @@ func recvNamedIs(m *types.Func, pkg, typ string) bool {
 	if !ok {
 		return false
 	}
-	return n.Obj().Name() == typ && n.Obj().Pkg() != nil && n.Obj().Pkg().Path() == pkgPath(pkg)
+	return n.Obj().Pkg() != nil && n.Obj().Pkg().Path() == pkgPath(pkg) && canonTypeName(n) == typ
 }
 
 // staticCalleeIs matches a package-level function.
@@ -96,7 +96,33 @@ func namedOf(t types.Type) *types.Named {
 
 func typeIs(t types.Type, pkg, name string) bool {
 	n := namedOf(t)
-	return n != nil && n.Obj().Name() == name && n.Obj().Pkg() != nil && n.Obj().Pkg().Path() == pkgPath(pkg)
+	if n == nil || n.Obj().Pkg() == nil || n.Obj().Pkg().Path() != pkgPath(pkg) {
+		return false
+	}
+	return canonTypeName(n) == name
+}
+
+// canonTypeName: the name a type of the repository is known by: its own, or the recorded name of
+// the anchor type it was recognised as after a rename (anchors.go).
+var canonTypeCache map[*types.TypeName]string
+
+func canonTypeName(n *types.Named) string {
+	if canonTypeCache == nil && curProg != nil {
+		canonTypeCache = map[*types.TypeName]string{}
+		for key := range typePrints {
+			parts := strings.Split(key, ".")
+			if len(parts) != 2 {
+				continue
+			}
+			if r := curProg.NamedOpt(parts[0], parts[1]); r != nil && r.Obj().Name() != parts[1] {
+				canonTypeCache[r.Obj()] = parts[1]
+			}
+		}
+	}
+	if c, ok := canonTypeCache[n.Obj()]; ok {
+		return c
+	}
+	return n.Obj().Name()
 }
 
 // instruction walking -------------------------------------------------------
@@ -641,7 +667,7 @@ func fieldPath(v ssa.Value) string {
 		if f == nil {
 			break
 		}
-		parts = append([]string{f.Name()}, parts...)
+		parts = append([]string{canonFieldName(f)}, parts...)
 		v = base
 	}
 	root := "?"
